@@ -2,6 +2,7 @@ import sys
 import traceback
 from inspect import getmro
 from itertools import takewhile
+from types import ModuleType
 from typing import (
     Any,
     Generic,
@@ -356,7 +357,12 @@ def exception_to_python(
             cls = sys.modules[exc_module]  # type: ignore
             # The type can contain qualified name with parent classes
             for name in exc_type.split("."):
-                cls = getattr(cls, name)
+                if isinstance(cls, ModuleType):
+                    # Modules can define `__getattr__` to import things lazily.
+                    # We only look at what the module already has.
+                    cls = vars(cls)[name]
+                else:
+                    cls = getattr(cls, name)
         except (KeyError, AttributeError):
             cls = create_exception_cls(
                 exc_type,
